@@ -395,9 +395,66 @@ func normalizeSetField(
 	case isSub(old) && isSub(val):
 		cfgOld, _ := old.toConfig(opts)
 		cfgVal, _ := val.toConfig(opts)
-		return mergeConfig(opts, cfgOld, cfgVal)
+		return normalizeMergeInto(opts, cfgOld, cfgVal)
 	default:
 		return raiseDuplicateKey(cfg, name)
+	}
+}
+
+// normalizeMergeInto adds the settings of from to to while one input value is
+// being normalized, i.e. when the same object is spelled partly nested and
+// partly with dotted keys. Unlike mergeConfig it never overwrites: a setting
+// defined on both sides is a duplicate unless both sides are objects/lists
+// (merged recursively) or one side is only a nil placeholder (list padding).
+// This makes the outcome independent of the order in which the keys of the
+// input map are visited.
+func normalizeMergeInto(opts *options, to, from *Config) Error {
+	parent := cfgSub{to}
+
+	for k, v := range from.fields.dict() {
+		old, _ := to.fields.get(k)
+		add, err := normalizeMergeValue(opts, to, k, old, v)
+		if err != nil {
+			return err
+		}
+		if add != nil {
+			to.fields.set(k, add.cpy(context{parent: parent, field: k}))
+		}
+	}
+
+	for i, v := range from.fields.array() {
+		var old value
+		if arr := to.fields.array(); i < len(arr) {
+			old = arr[i]
+		}
+		idx := fmt.Sprintf("%d", i)
+		add, err := normalizeMergeValue(opts, to, idx, old, v)
+		if err != nil {
+			return err
+		}
+		if add != nil {
+			to.fields.setAt(i, parent, add.cpy(context{parent: parent, field: idx}))
+		}
+	}
+	return nil
+}
+
+// normalizeMergeValue returns the value to store under name in to, nil if the
+// old value stays (possibly updated in place), or a duplicate key error.
+func normalizeMergeValue(opts *options, to *Config, name string, old, v value) (value, Error) {
+	switch {
+	case old == nil:
+		return v, nil
+	case isNil(v):
+		return nil, nil
+	case isNil(old):
+		return v, nil
+	case isSub(old) && isSub(v):
+		cfgOld, _ := old.toConfig(opts)
+		cfgVal, _ := v.toConfig(opts)
+		return nil, normalizeMergeInto(opts, cfgOld, cfgVal)
+	default:
+		return nil, raiseDuplicateKey(to, name)
 	}
 }
 
